@@ -823,7 +823,7 @@ func runC08(e *sim.Env) {
 
 func init() {
 	register(&Prop{
-		ID: "C08", Run: runC08, Flavour: "instrumented", Quick: 1200, Thorough: 8000, Level: "exploration",
+		ID: "C08", Run: runC08, Race: true, Flavour: "instrumented", Quick: 1200, Thorough: 8000, Level: "exploration",
 		Rule:        "one run = a formed contract and 10-40 renter RPCs (fund accounts, replenish accounts, replenish pools, append, free, sector roots, latest revision) issued by the real client through a typed relay that, for 2 in 5 of them, corrupts one field of a renter->host message (contract id, challenge signature, revision signature in the request or in the second response, a price-table field, a price table signed by a foreign key, out-of-range / duplicate parameters, deposits beyond the allowance) or replaces it with a recorded message of an earlier exchange; price tables expire by clock jumps; 1 run in 4 uses a contract of minimum duration and mines until its proof window opens (every revision persisted from then on is unacceptable to consensus); at 1 step in 8, 2-3 honest RPCs are issued on the same contract at overlapping simulated times, the renter's second message of each held back for a drawn delay, and everything the host tried to persist - in the order it tried, including attempts its contractor refused - goes through the same rules; every revision the host persists (recorded at the Contractor interface) is checked against the previously persisted one: strictly higher number, valid renter and host signatures over exactly it, immutable fields, value only moves to the host, constant sum, renter payout lowered by exactly the independently computed price (core's cost functions on the request that reached the host); corrupted requests persist nothing and leave contracts, accounts, pools untouched; renter and host end every exchange on the same revision; the latest revision validates with consensus as a revision of the on-chain element; distinct = abstract trace (op, corruption, outcome); non-trivial = at least one corrupted message",
 		Real:        []string{"rhp4.Server", "rhp4 RPC* client functions", "wallet.SingleAddressWallet x2", "chain.Manager", "testutil.EphemeralContractor / EphemeralSectorStore behind recording wrappers"},
 		Stub:        []string{"transport: simrhp in-memory streams with typed relay", "disk: simdisk.DB"},
